@@ -3,13 +3,50 @@ Helper lemmas for C09: the inductive invariant of the plugin provider's state mo
 `r.state` / `r.currentStage` another goroutine can observe at which point of `run()`.
 -/
 import Arca.Model.PluginState
+import Arca.Model.PluginStep
 
 namespace Arca.Proofs.PluginState
 open Arca.Model.PluginState
 
-/-- what the raw state, the stage, the input flags / channels and the loop-side record look like at each program point
-    of `run()` -/
-def inv (s : St) : Bool :=
+set_option maxHeartbeats 4000000
+set_option linter.unusedSimpArgs false
+
+/-- the stages the loop has seen finished before the ending's transition report (if it has one) is processed -/
+def finPre : Path → List Stage
+  | .closedEnable => [.deploy]
+  | .closedStart => [.deploy, .enabling]
+  | .disabled => [.deploy]
+  | .startFailed => [.deploy, .enabling]
+  | .runFailed => [.deploy, .enabling, .starting]
+  | .ok => [.deploy, .enabling, .starting]
+  | _ => []
+
+/-- .. after it -/
+def finMid : Path → List Stage
+  | .closedAfterDeploy => [.deploy]
+  | .deployFailed => [.deploy]
+  | .disabled => [.deploy, .enabling]
+  | .runFailed => [.deploy, .enabling, .starting, .running]
+  | .ok => [.deploy, .enabling, .starting, .running]
+  | p => finPre p
+
+def finalStage : Path → Stage
+  | .deployFailed => .deployFailed
+  | .disabled => .disabled
+  | .startFailed => .crashed
+  | .runFailed => .crashed
+  | .ok => .outputs
+  | _ => .closed
+
+/-- .. after the completion -/
+def finPost (p : Path) : List Stage := finMid p ++ [finalStage p]
+
+def settledPost (marks : Bool) (p : Path) : List Stage :=
+  if marks then allStages.filter (fun x => !(finPost p).contains x) else []
+
+/-- what the raw state, the stage, the input flags / channels, the chosen ending and the loop-side record look like at
+    each program point of `run()` -/
+def inv (marks : Bool) (s : St) : Bool :=
   let dEq := s.deployOcc == s.deployAvail     -- deploy input not consumed yet
   let eEq := s.enabledOcc == s.enabledAvail   -- enabling input not consumed yet
   let rEq := s.runOcc == s.runAvail           -- run input not consumed yet
@@ -18,166 +55,181 @@ def inv (s : St) : Bool :=
   -- an input flag that is not set means an empty channel
   (s.deployAvail || !s.deployOcc) && (s.enabledAvail || !s.enabledOcc) && (s.runAvail || !s.runOcc) &&
   (match s.pc with
-   | .dLock => s.state == .starting && s.stage == .deploy && dEq && eEq && rEq && s.reportedStage == none && !s.completed
-   | .dCb => s.state == .running && s.stage == .deploy && dEq && eEq && rEq && s.reportedStage == none && !s.completed
-   | .dCbRet => s.state == .running && s.stage == .deploy && dEq && eEq && rEq && rep .deploy && !s.completed
-   | .dTry => s.state == .running && s.stage == .deploy && dEq && eEq && rEq && rep .deploy && !s.completed
-   | .dSetWaiting => s.state == .running && s.stage == .deploy && dEq && eEq && rEq && rep .deploy && !s.completed
+   | .dLock => s.state == .starting && s.stage == .deploy && dEq && eEq && rEq && s.reportedStage == none && !s.completed && s.path == .main && s.tailFails == [] && s.settledStages == [] && s.finishedStages == []
+   | .dCb => s.state == .running && s.stage == .deploy && dEq && eEq && rEq && s.reportedStage == none && !s.completed && s.path == .main && s.tailFails == [] && s.settledStages == [] && s.finishedStages == []
+   | .dCbRet => s.state == .running && s.stage == .deploy && dEq && eEq && rEq && rep .deploy && !s.completed && s.path == .main && s.tailFails == [] && s.settledStages == [] && s.finishedStages == []
+   | .dTry => s.state == .running && s.stage == .deploy && dEq && eEq && rEq && rep .deploy && !s.completed && s.path == .main && s.tailFails == [] && s.settledStages == [] && s.finishedStages == []
+   | .dSetWaiting => s.state == .running && s.stage == .deploy && dEq && eEq && rEq && rep .deploy && !s.completed && s.path == .main && s.tailFails == [] && s.settledStages == [] && s.finishedStages == []
    | .dWait => (s.state == .waiting || (s.state == .running && s.deployAvail)) && s.stage == .deploy && dEq && eEq && rEq &&
-       rep .deploy && !s.completed
-   | .dGotEarly => s.state == .running && s.stage == .deploy && s.deployAvail && eEq && rEq && rep .deploy && !s.completed
+       rep .deploy && !s.completed && s.path == .main && s.tailFails == [] && s.settledStages == [] && s.finishedStages == []
+   | .dGotEarly => s.state == .running && s.stage == .deploy && s.deployAvail && eEq && rEq && rep .deploy && !s.completed && s.path == .main && s.tailFails == [] && s.settledStages == [] && s.finishedStages == []
    | .dGotLate => (s.state == .waiting || s.state == .running) && s.stage == .deploy && s.deployAvail && eEq && rEq &&
-       rep .deploy && !s.completed
-   | .dDeploying => s.state == .running && s.stage == .deploy && eEq && rEq && rep .deploy && !s.completed
-   | .spCheck => s.state == .running && s.stage == .deploy && eEq && rEq && rep .deploy && !s.completed
-   | .eLock => s.state == .running && s.stage == .deploy && eEq && rEq && rep .deploy && !s.completed
-   | .eCb => s.state == .waiting && s.stage == .enabling && eEq && rEq && rep .deploy && !s.completed
-   | .eCbRet => s.state == .waiting && s.stage == .enabling && eEq && rEq && rep .enabling && !s.completed
-   | .eWait => s.state == .waiting && s.stage == .enabling && eEq && rEq && rep .enabling && !s.completed
-   | .eGotTrue => s.state == .waiting && s.stage == .enabling && s.enabledAvail && rEq && rep .enabling && !s.completed
-   | .sTry => s.state == .waiting && s.stage == .enabling && s.enabledAvail && rEq && rep .enabling && !s.completed
+       rep .deploy && !s.completed && s.path == .main && s.tailFails == [] && s.settledStages == [] && s.finishedStages == []
+   | .dDeploying => s.state == .running && s.stage == .deploy && eEq && rEq && rep .deploy && !s.completed && s.path == .main && s.tailFails == [] && s.settledStages == [] && s.finishedStages == []
+   | .spCheck => s.state == .running && s.stage == .deploy && eEq && rEq && rep .deploy && !s.completed && s.path == .main && s.tailFails == [] && s.settledStages == [] && s.finishedStages == []
+   | .eLock => s.state == .running && s.stage == .deploy && eEq && rEq && rep .deploy && !s.completed && s.path == .main && s.tailFails == [] && s.settledStages == [] && s.finishedStages == []
+   | .eCb => s.state == .waiting && s.stage == .enabling && eEq && rEq && rep .deploy && !s.completed && s.path == .main && s.tailFails == [] && s.settledStages == [] && s.finishedStages == []
+   | .eCbRet => s.state == .waiting && s.stage == .enabling && eEq && rEq && rep .enabling && !s.completed && s.path == .main && s.tailFails == [] && s.settledStages == [] && s.finishedStages == [.deploy]
+   | .eWait => s.state == .waiting && s.stage == .enabling && eEq && rEq && rep .enabling && !s.completed && s.path == .main && s.tailFails == [] && s.settledStages == [] && s.finishedStages == [.deploy]
+   | .eGotTrue => s.state == .waiting && s.stage == .enabling && s.enabledAvail && rEq && rep .enabling && !s.completed && s.path == .main && s.tailFails == [] && s.settledStages == [] && s.finishedStages == [.deploy]
+   | .sTry => s.state == .waiting && s.stage == .enabling && s.enabledAvail && rEq && rep .enabling && !s.completed && s.path == .main && s.tailFails == [] && s.settledStages == [] && s.finishedStages == [.deploy]
    | .transLock .starting st => s.state == .waiting && s.stage == .enabling && s.enabledAvail && runFacts &&
-       st == (if s.early then .running else .waiting) && rep .enabling && !s.completed
+       st == (if s.early then .running else .waiting) && rep .enabling && !s.completed && s.path == .main && s.tailFails == [] && s.settledStages == [] && s.finishedStages == [.deploy]
    | .transLock .disabled st => s.state == .waiting && s.stage == .enabling && s.enabledAvail && st == .running &&
-       rep .enabling && !s.completed
-   | .transLock .running st => s.state == .running && s.stage == .starting && st == .running && rep .starting && !s.completed
-   | .transLock .outputs st => s.state == .running && s.stage == .running && st == .running && rep .running && !s.completed
-   | .transLock .crashed st => s.state == .running && s.stage == .running && st == .running && rep .running && !s.completed
-   | .transLock .deployFailed st => s.state == .running && s.stage == .deploy && st == .running && rep .deploy && !s.completed
-   | .transLock .closed st => s.state == .running && s.stage == .deploy && st == .running && rep .deploy && !s.completed
+       rep .enabling && !s.completed && s.path == .disabled && s.tailFails == tailOf s.path && s.finishedStages == finPre s.path && s.settledStages == []
+   | .transLock .running st => s.state == .running && s.stage == .starting && st == .running && rep .starting && !s.completed && s.path == .main && s.tailFails == [] && s.settledStages == [] && s.finishedStages == [.deploy, .enabling]
+   | .transLock .outputs st => s.state == .running && s.stage == .running && st == .running && rep .running && !s.completed &&
+       s.path == .ok && s.tailFails == tailOf s.path && s.finishedStages == finPre s.path && s.settledStages == []
+   | .transLock .crashed st => s.state == .running && s.stage == .running && st == .running && rep .running && !s.completed &&
+       s.path == .runFailed && s.tailFails == tailOf s.path && s.finishedStages == finPre s.path && s.settledStages == []
+   | .transLock .deployFailed st => s.state == .running && s.stage == .deploy && st == .running && rep .deploy && !s.completed &&
+       s.path == .deployFailed && s.tailFails == tailOf s.path && s.finishedStages == finPre s.path && s.settledStages == []
+   | .transLock .closed st => s.state == .running && s.stage == .deploy && st == .running && rep .deploy && !s.completed &&
+       s.path == .closedAfterDeploy && s.tailFails == tailOf s.path && s.finishedStages == finPre s.path && s.settledStages == []
    | .transLock .deploy _ => false
    | .transLock .enabling _ => false
    | .transCb .starting => s.stage == .starting && s.state == (if s.early then .running else .waiting) && runFacts &&
-       rep .enabling && !s.completed
-   | .transCb .disabled => s.state == .running && s.stage == .disabled && rep .enabling && !s.completed
-   | .transCb .running => s.state == .running && s.stage == .running && rep .starting && !s.completed
-   | .transCb .outputs => s.state == .running && s.stage == .outputs && rep .running && !s.completed
-   | .transCb .crashed => s.state == .running && s.stage == .crashed && rep .running && !s.completed
-   | .transCb .deployFailed => s.state == .running && s.stage == .deployFailed && rep .deploy && !s.completed
-   | .transCb .closed => s.state == .running && s.stage == .closed && rep .deploy && !s.completed
+       rep .enabling && !s.completed && s.path == .main && s.tailFails == [] && s.settledStages == [] && s.finishedStages == [.deploy]
+   | .transCb .disabled => s.state == .running && s.stage == .disabled && rep .enabling && !s.completed && s.path == .disabled && s.tailFails == tailOf s.path && s.finishedStages == finPre s.path && s.settledStages == []
+   | .transCb .running => s.state == .running && s.stage == .running && rep .starting && !s.completed && s.path == .main && s.tailFails == [] && s.settledStages == [] && s.finishedStages == [.deploy, .enabling]
+   | .transCb .outputs => s.state == .running && s.stage == .outputs && rep .running && !s.completed && s.path == .ok && s.tailFails == tailOf s.path && s.finishedStages == finPre s.path && s.settledStages == []
+   | .transCb .crashed => s.state == .running && s.stage == .crashed && rep .running && !s.completed && s.path == .runFailed && s.tailFails == tailOf s.path && s.finishedStages == finPre s.path && s.settledStages == []
+   | .transCb .deployFailed => s.state == .running && s.stage == .deployFailed && rep .deploy && !s.completed &&
+       s.path == .deployFailed && s.tailFails == tailOf s.path && s.finishedStages == finPre s.path && s.settledStages == []
+   | .transCb .closed => s.state == .running && s.stage == .closed && rep .deploy && !s.completed &&
+       s.path == .closedAfterDeploy && s.tailFails == tailOf s.path && s.finishedStages == finPre s.path && s.settledStages == []
    | .transCb .deploy => false
    | .transCb .enabling => false
    | .transCbRet .starting => s.stage == .starting && s.state == (if s.early then .running else .waiting) && runFacts &&
-       rep .starting && !s.completed
+       rep .starting && !s.completed && s.path == .main && s.tailFails == [] && s.settledStages == [] && s.finishedStages == [.deploy, .enabling]
+   | .transCbRet .running => s.state == .running && s.stage == .running && rep .running && !s.completed && s.path == .main && s.tailFails == [] && s.settledStages == [] && s.finishedStages == [.deploy, .enabling, .starting]
    | .transCbRet .deploy => false
    | .transCbRet .enabling => false
-   | .transCbRet tgt => s.state == .running && s.stage == tgt && rep tgt && !s.completed
-   | .sCheck => s.state == .waiting && s.stage == .starting && !s.early && rEq && rep .starting && !s.completed
-   | .sWait => s.state == .waiting && s.stage == .starting && !s.early && rEq && rep .starting && !s.completed
-   | .sGotLate => s.state == .waiting && s.stage == .starting && !s.early && s.runAvail && rep .starting && !s.completed
-   | .sSchema => s.state == .running && s.stage == .starting && rep .starting && !s.completed
-   | .rWait => s.state == .running && s.stage == .running && rep .running && !s.completed
+   | .transCbRet tgt => s.state == .running && s.stage == tgt && rep tgt && !s.completed && s.path != .main &&
+       finalStage s.path == tgt && s.path != .closedDeploy && s.path != .closedEnable && s.path != .closedStart &&
+       s.path != .startFailed && s.tailFails == tailOf s.path && s.finishedStages == finMid s.path && s.settledStages == []
+   | .sCheck => s.state == .waiting && s.stage == .starting && !s.early && rEq && rep .starting && !s.completed && s.path == .main && s.tailFails == [] && s.settledStages == [] && s.finishedStages == [.deploy, .enabling]
+   | .sWait => s.state == .waiting && s.stage == .starting && !s.early && rEq && rep .starting && !s.completed && s.path == .main && s.tailFails == [] && s.settledStages == [] && s.finishedStages == [.deploy, .enabling]
+   | .sGotLate => s.state == .waiting && s.stage == .starting && !s.early && s.runAvail && rep .starting && !s.completed && s.path == .main && s.tailFails == [] && s.settledStages == [] && s.finishedStages == [.deploy, .enabling]
+   | .sSchema => s.state == .running && s.stage == .starting && rep .starting && !s.completed && s.path == .main && s.tailFails == [] && s.settledStages == [] && s.finishedStages == [.deploy, .enabling]
+   | .rWait => s.state == .running && s.stage == .running && rep .running && !s.completed && s.path == .main && s.tailFails == [] && s.settledStages == [] && s.finishedStages == [.deploy, .enabling, .starting]
    | .failedLock .closed =>
        (s.state == .waiting || (s.state == .running && s.stage == .deploy && s.deployAvail)) &&
-       (s.stage == .deploy || s.stage == .enabling || s.stage == .starting) &&
-       s.ctxDone && s.reportedStage == some s.stage && !s.completed
-   | .failedLock .crashed => s.state == .running && s.stage == .starting && !s.completed
+       s.ctxDone && s.reportedStage == some s.stage && !s.completed &&
+       ((s.stage == .deploy && s.path == .closedDeploy) || (s.stage == .enabling && s.path == .closedEnable) ||
+        (s.stage == .starting && s.path == .closedStart)) && s.tailFails == tailOf s.path && s.finishedStages == finPre s.path && s.settledStages == []
+   | .failedLock .crashed => s.state == .running && s.stage == .starting && !s.completed && s.path == .startFailed && s.tailFails == tailOf s.path && s.finishedStages == finPre s.path && s.settledStages == []
    | .failedLock _ => false
-   | .failedCb tgt => s.state == .running && s.stage == tgt && (tgt == .closed || tgt == .crashed) && !s.completed
-   | .complLock tgt => s.state == .running && s.stage == tgt && !s.completed
-   | .complCb tgt => s.state == .finished && s.stage == tgt && !s.completed
-   | .complCbRet tgt => s.state == .finished && s.stage == tgt && s.completed
-   | .tailFail => s.state == .finished && s.completed
-   | .tailClose => s.state == .finished && s.completed
-   | .done => s.state == .finished && s.completed)
+   | .failedCb tgt => s.state == .running && s.stage == tgt && !s.completed &&
+       (s.path == .closedDeploy || s.path == .closedEnable || s.path == .closedStart || s.path == .startFailed) &&
+       finalStage s.path == tgt && s.tailFails == tailOf s.path && s.finishedStages == finMid s.path && s.settledStages == []
+   | .complLock tgt => s.state == .running && s.stage == tgt && !s.completed && s.path != .main && finalStage s.path == tgt && s.tailFails == tailOf s.path && s.finishedStages == finMid s.path && s.settledStages == []
+   | .complCb tgt => s.state == .finished && s.stage == tgt && !s.completed && s.path != .main && finalStage s.path == tgt && s.tailFails == tailOf s.path && s.finishedStages == finMid s.path && s.settledStages == []
+   | .complCbRet tgt => s.state == .finished && s.stage == tgt && s.completed && s.path != .main && finalStage s.path == tgt && s.tailFails == tailOf s.path && s.finishedStages == finPost s.path && s.settledStages == settledPost marks s.path
+   | .tailFail => s.state == .finished && s.completed && s.path != .main && s.path != .ok && s.tailFails == tailOf s.path && s.finishedStages == finPost s.path && s.settledStages == settledPost marks s.path
+   | .tailClose => s.state == .finished && s.completed && s.path != .main && s.tailFails == tailOf s.path && s.finishedStages == finPost s.path && s.settledStages == settledPost marks s.path
+   | .done => s.state == .finished && s.completed && s.path != .main && s.tailFails == tailOf s.path && s.finishedStages == finPost s.path && s.settledStages == settledPost marks s.path)
 
-theorem inv_init : inv init = true := by decide
+theorem inv_init (marks : Bool) : inv marks init = true := by cases marks <;> decide
 
 /-- closure under one action: fix the action and the program point, compute, discharge -/
-macro "close_tac" hi:ident hs:ident pc:ident stv:ident ev:ident : tactic => `(tactic| (
+macro "close_tac" hi:ident hs:ident pc:ident stv:ident ev:ident pv:ident mv:ident : tactic => `(tactic| (
   rcases $pc:ident with _|_|_|_|_|_|_|_|_|_|_|_|_|_|_|_|_|_|_|_|_|⟨tgt,st⟩|⟨tgt⟩|⟨tgt⟩|⟨tgt⟩|⟨tgt⟩|⟨tgt⟩|⟨tgt⟩|⟨tgt⟩|_|_|_
   all_goals (try cases tgt)
   all_goals (try cases st)
-  all_goals (simp [step, afterTrans] at $hs:ident)
+  all_goals (simp [step, afterTrans, choose] at $hs:ident)
   all_goals (try (repeat' split at $hs:ident))
   all_goals (try (obtain ⟨_, $hs:ident⟩ := $hs:ident))
   all_goals (try subst $hs:ident)
-  all_goals (simp_all [inv])
-  all_goals (try (cases $stv:ident <;> simp_all))
-  all_goals (try (cases $ev:ident <;> simp_all))))
+  all_goals (try (simp_all [inv, choose, tailOf, failChain, finPre, finMid, finPost, finalStage, settledPost, allStages, prevOf]; done))
+  all_goals (try (split <;> simp_all [inv, choose, tailOf, failChain, finPre, finMid, finPost, finalStage, settledPost, allStages, prevOf]; done))
+  all_goals (try (cases $stv:ident <;> simp_all [inv, choose, tailOf, failChain, finPre, finMid, finPost, finalStage, settledPost, allStages, prevOf]; done))
+  all_goals (try (cases $ev:ident <;> simp_all [inv, choose, tailOf, failChain, finPre, finMid, finPost, finalStage, settledPost, allStages, prevOf]; done))
+  all_goals (try (cases $pv:ident <;> simp_all [inv, choose, tailOf, failChain, finPre, finMid, finPost, finalStage, settledPost, allStages, prevOf]; done))
+  all_goals (try (cases $pv:ident <;> cases $mv:ident <;> simp_all [inv, choose, tailOf, failChain, finPre, finMid, finPost, finalStage, settledPost, allStages, prevOf]; done))))
 
-theorem inv_provideDeploy (s s' : St) (hi : inv s = true) (hs : step s (.provideDeploy) = some s') : inv s' = true := by
-  rcases s with ⟨pc, state, stage, dA, eA, rA, dO, eO, eV, rO, early, ctx, rep, compl⟩
-  close_tac hi hs pc state early
+theorem inv_provideDeploy (marks : Bool) (s s' : St) (hi : inv marks s = true) (hs : step marks s (.provideDeploy) = some s') : inv marks s' = true := by
+  rcases s with ⟨pc, state, stage, dA, eA, rA, dO, eO, eV, rO, early, ctx, tailF, path, rep, compl, fin, settled⟩
+  close_tac hi hs pc state early path marks
 
-theorem inv_provideEnabling (s s' : St) (b : Bool) (hi : inv s = true) (hs : step s (.provideEnabling b) = some s') : inv s' = true := by
-  rcases s with ⟨pc, state, stage, dA, eA, rA, dO, eO, eV, rO, early, ctx, rep, compl⟩
-  close_tac hi hs pc state early
+theorem inv_provideEnabling (marks : Bool) (s s' : St) (b : Bool) (hi : inv marks s = true) (hs : step marks s (.provideEnabling b) = some s') : inv marks s' = true := by
+  rcases s with ⟨pc, state, stage, dA, eA, rA, dO, eO, eV, rO, early, ctx, tailF, path, rep, compl, fin, settled⟩
+  close_tac hi hs pc state early path marks
 
-theorem inv_provideStarting (s s' : St) (hi : inv s = true) (hs : step s (.provideStarting) = some s') : inv s' = true := by
-  rcases s with ⟨pc, state, stage, dA, eA, rA, dO, eO, eV, rO, early, ctx, rep, compl⟩
-  close_tac hi hs pc state early
+theorem inv_provideStarting (marks : Bool) (s s' : St) (hi : inv marks s = true) (hs : step marks s (.provideStarting) = some s') : inv marks s' = true := by
+  rcases s with ⟨pc, state, stage, dA, eA, rA, dO, eO, eV, rO, early, ctx, tailF, path, rep, compl, fin, settled⟩
+  close_tac hi hs pc state early path marks
 
-theorem inv_cancel (s s' : St) (hi : inv s = true) (hs : step s (.cancel) = some s') : inv s' = true := by
-  rcases s with ⟨pc, state, stage, dA, eA, rA, dO, eO, eV, rO, early, ctx, rep, compl⟩
-  close_tac hi hs pc state early
+theorem inv_cancel (marks : Bool) (s s' : St) (hi : inv marks s = true) (hs : step marks s (.cancel) = some s') : inv marks s' = true := by
+  rcases s with ⟨pc, state, stage, dA, eA, rA, dO, eO, eV, rO, early, ctx, tailF, path, rep, compl, fin, settled⟩
+  close_tac hi hs pc state early path marks
 
-theorem inv_internal (s s' : St) (hi : inv s = true) (hs : step s (.internal) = some s') : inv s' = true := by
-  rcases s with ⟨pc, state, stage, dA, eA, rA, dO, eO, eV, rO, early, ctx, rep, compl⟩
-  close_tac hi hs pc state early
+theorem inv_internal (marks : Bool) (s s' : St) (hi : inv marks s = true) (hs : step marks s (.internal) = some s') : inv marks s' = true := by
+  rcases s with ⟨pc, state, stage, dA, eA, rA, dO, eO, eV, rO, early, ctx, tailF, path, rep, compl, fin, settled⟩
+  close_tac hi hs pc state early path marks
 
-theorem inv_deliver (s s' : St) (hi : inv s = true) (hs : step s (.deliver) = some s') : inv s' = true := by
-  rcases s with ⟨pc, state, stage, dA, eA, rA, dO, eO, eV, rO, early, ctx, rep, compl⟩
-  close_tac hi hs pc state early
+theorem inv_deliver (marks : Bool) (s s' : St) (hi : inv marks s = true) (hs : step marks s (.deliver) = some s') : inv marks s' = true := by
+  rcases s with ⟨pc, state, stage, dA, eA, rA, dO, eO, eV, rO, early, ctx, tailF, path, rep, compl, fin, settled⟩
+  close_tac hi hs pc state early path marks
 
-theorem inv_deliverFailure (s s' : St) (hi : inv s = true) (hs : step s (.deliverFailure) = some s') : inv s' = true := by
-  rcases s with ⟨pc, state, stage, dA, eA, rA, dO, eO, eV, rO, early, ctx, rep, compl⟩
-  close_tac hi hs pc state early
+theorem inv_deliverFailure (marks : Bool) (s s' : St) (hi : inv marks s = true) (hs : step marks s (.deliverFailure) = some s') : inv marks s' = true := by
+  rcases s with ⟨pc, state, stage, dA, eA, rA, dO, eO, eV, rO, early, ctx, tailF, path, rep, compl, fin, settled⟩
+  close_tac hi hs pc state early path marks
 
-theorem inv_recv (s s' : St) (hi : inv s = true) (hs : step s (.recv) = some s') : inv s' = true := by
-  rcases s with ⟨pc, state, stage, dA, eA, rA, dO, eO, eV, rO, early, ctx, rep, compl⟩
-  close_tac hi hs pc state early
+theorem inv_recv (marks : Bool) (s s' : St) (hi : inv marks s = true) (hs : step marks s (.recv) = some s') : inv marks s' = true := by
+  rcases s with ⟨pc, state, stage, dA, eA, rA, dO, eO, eV, rO, early, ctx, tailF, path, rep, compl, fin, settled⟩
+  close_tac hi hs pc state early path marks
 
-theorem inv_ctx (s s' : St) (hi : inv s = true) (hs : step s (.ctx) = some s') : inv s' = true := by
-  rcases s with ⟨pc, state, stage, dA, eA, rA, dO, eO, eV, rO, early, ctx, rep, compl⟩
-  close_tac hi hs pc state early
+theorem inv_ctx (marks : Bool) (s s' : St) (hi : inv marks s = true) (hs : step marks s (.ctx) = some s') : inv marks s' = true := by
+  rcases s with ⟨pc, state, stage, dA, eA, rA, dO, eO, eV, rO, early, ctx, tailF, path, rep, compl, fin, settled⟩
+  close_tac hi hs pc state early path marks
 
-theorem inv_deployOk (s s' : St) (hi : inv s = true) (hs : step s (.deployOk) = some s') : inv s' = true := by
-  rcases s with ⟨pc, state, stage, dA, eA, rA, dO, eO, eV, rO, early, ctx, rep, compl⟩
-  close_tac hi hs pc state early
+theorem inv_deployOk (marks : Bool) (s s' : St) (hi : inv marks s = true) (hs : step marks s (.deployOk) = some s') : inv marks s' = true := by
+  rcases s with ⟨pc, state, stage, dA, eA, rA, dO, eO, eV, rO, early, ctx, tailF, path, rep, compl, fin, settled⟩
+  close_tac hi hs pc state early path marks
 
-theorem inv_deployFail (s s' : St) (hi : inv s = true) (hs : step s (.deployFail) = some s') : inv s' = true := by
-  rcases s with ⟨pc, state, stage, dA, eA, rA, dO, eO, eV, rO, early, ctx, rep, compl⟩
-  close_tac hi hs pc state early
+theorem inv_deployFail (marks : Bool) (s s' : St) (hi : inv marks s = true) (hs : step marks s (.deployFail) = some s') : inv marks s' = true := by
+  rcases s with ⟨pc, state, stage, dA, eA, rA, dO, eO, eV, rO, early, ctx, tailF, path, rep, compl, fin, settled⟩
+  close_tac hi hs pc state early path marks
 
-theorem inv_startOk (s s' : St) (hi : inv s = true) (hs : step s (.startOk) = some s') : inv s' = true := by
-  rcases s with ⟨pc, state, stage, dA, eA, rA, dO, eO, eV, rO, early, ctx, rep, compl⟩
-  close_tac hi hs pc state early
+theorem inv_startOk (marks : Bool) (s s' : St) (hi : inv marks s = true) (hs : step marks s (.startOk) = some s') : inv marks s' = true := by
+  rcases s with ⟨pc, state, stage, dA, eA, rA, dO, eO, eV, rO, early, ctx, tailF, path, rep, compl, fin, settled⟩
+  close_tac hi hs pc state early path marks
 
-theorem inv_startFail (s s' : St) (hi : inv s = true) (hs : step s (.startFail) = some s') : inv s' = true := by
-  rcases s with ⟨pc, state, stage, dA, eA, rA, dO, eO, eV, rO, early, ctx, rep, compl⟩
-  close_tac hi hs pc state early
+theorem inv_startFail (marks : Bool) (s s' : St) (hi : inv marks s = true) (hs : step marks s (.startFail) = some s') : inv marks s' = true := by
+  rcases s with ⟨pc, state, stage, dA, eA, rA, dO, eO, eV, rO, early, ctx, tailF, path, rep, compl, fin, settled⟩
+  close_tac hi hs pc state early path marks
 
-theorem inv_resultOk (s s' : St) (hi : inv s = true) (hs : step s (.resultOk) = some s') : inv s' = true := by
-  rcases s with ⟨pc, state, stage, dA, eA, rA, dO, eO, eV, rO, early, ctx, rep, compl⟩
-  close_tac hi hs pc state early
+theorem inv_resultOk (marks : Bool) (s s' : St) (hi : inv marks s = true) (hs : step marks s (.resultOk) = some s') : inv marks s' = true := by
+  rcases s with ⟨pc, state, stage, dA, eA, rA, dO, eO, eV, rO, early, ctx, tailF, path, rep, compl, fin, settled⟩
+  close_tac hi hs pc state early path marks
 
-theorem inv_resultErr (s s' : St) (hi : inv s = true) (hs : step s (.resultErr) = some s') : inv s' = true := by
-  rcases s with ⟨pc, state, stage, dA, eA, rA, dO, eO, eV, rO, early, ctx, rep, compl⟩
-  close_tac hi hs pc state early
+theorem inv_resultErr (marks : Bool) (s s' : St) (hi : inv marks s = true) (hs : step marks s (.resultErr) = some s') : inv marks s' = true := by
+  rcases s with ⟨pc, state, stage, dA, eA, rA, dO, eO, eV, rO, early, ctx, tailF, path, rep, compl, fin, settled⟩
+  close_tac hi hs pc state early path marks
 
-theorem inv_step (s s' : St) (a : Act) (hi : inv s = true) (hs : step s a = some s') : inv s' = true := by
+theorem inv_step (marks : Bool) (s s' : St) (a : Act) (hi : inv marks s = true) (hs : step marks s a = some s') : inv marks s' = true := by
   cases a with
-  | provideDeploy => exact inv_provideDeploy s s' hi hs
-  | provideEnabling b => exact inv_provideEnabling s s' b hi hs
-  | provideStarting => exact inv_provideStarting s s' hi hs
-  | cancel => exact inv_cancel s s' hi hs
-  | internal => exact inv_internal s s' hi hs
-  | deliver => exact inv_deliver s s' hi hs
-  | deliverFailure => exact inv_deliverFailure s s' hi hs
-  | recv => exact inv_recv s s' hi hs
-  | ctx => exact inv_ctx s s' hi hs
-  | deployOk => exact inv_deployOk s s' hi hs
-  | deployFail => exact inv_deployFail s s' hi hs
-  | startOk => exact inv_startOk s s' hi hs
-  | startFail => exact inv_startFail s s' hi hs
-  | resultOk => exact inv_resultOk s s' hi hs
-  | resultErr => exact inv_resultErr s s' hi hs
+  | provideDeploy => exact inv_provideDeploy marks s s' hi hs
+  | provideEnabling b => exact inv_provideEnabling marks s s' b hi hs
+  | provideStarting => exact inv_provideStarting marks s s' hi hs
+  | cancel => exact inv_cancel marks s s' hi hs
+  | internal => exact inv_internal marks s s' hi hs
+  | deliver => exact inv_deliver marks s s' hi hs
+  | deliverFailure => exact inv_deliverFailure marks s s' hi hs
+  | recv => exact inv_recv marks s s' hi hs
+  | ctx => exact inv_ctx marks s s' hi hs
+  | deployOk => exact inv_deployOk marks s s' hi hs
+  | deployFail => exact inv_deployFail marks s s' hi hs
+  | startOk => exact inv_startOk marks s s' hi hs
+  | startFail => exact inv_startFail marks s s' hi hs
+  | resultOk => exact inv_resultOk marks s s' hi hs
+  | resultErr => exact inv_resultErr marks s s' hi hs
 
-theorem reachable_inv (s : St) (hr : Reachable s) : inv s = true := by
+theorem reachable_inv (marks : Bool) (s : St) (hr : Reachable marks s) : inv marks s = true := by
   induction hr with
-  | init => exact inv_init
-  | step a _ hs ih => exact inv_step _ _ a ih hs
+  | init => exact inv_init marks
+  | step a _ hs ih => exact inv_step marks _ _ a ih hs
 
 /-! ### the poll model -/
 
@@ -229,14 +281,14 @@ macro "unfold_defs" : tactic => `(tactic| simp [Quiescent, Settled, progressActs
   currentStageInputAvailable, Refined, owesCheck, checkingReportPending] at *)
 
 /-- the RAW `waiting_for_input` or `finished` is observed either in a quiescent state or in one of the listed windows -/
-theorem raw_classified (s : St) (hi : inv s = true) (hw : s.state = .waiting ∨ s.state = .finished) :
+theorem raw_classified (marks : Bool) (s : St) (hi : inv marks s = true) (hw : s.state = .waiting ∨ s.state = .finished) :
     Quiescent s = true ∨ InWindow s = true := by
-  rcases s with ⟨pc, state, stage, dA, eA, rA, dO, eO, eV, rO, early, ctx, rep, compl⟩
+  rcases s with ⟨pc, state, stage, dA, eA, rA, dO, eO, eV, rO, early, ctx, tailF, path, rep, compl, fin, settled⟩
   rcases pc with _|_|_|_|_|_|_|_|_|_|_|_|_|_|_|_|_|_|_|_|_|⟨tgt,st⟩|⟨tgt⟩|⟨tgt⟩|⟨tgt⟩|⟨tgt⟩|⟨tgt⟩|⟨tgt⟩|⟨tgt⟩|_|_|_
   all_goals (try cases tgt)
   all_goals (try cases st)
   all_goals (simp [inv] at hi)
-  all_goals (simp [Quiescent, progressActs, step, afterTrans, InWindow, inDeployRace, inEnableWindow, inStartWindow,
+  all_goals (simp [Quiescent, progressActs, step, afterTrans, choose, InWindow, inDeployRace, inEnableWindow, inStartWindow,
     inCompletionWindow, inClosingWindow])
   all_goals (try (rcases hw with hw | hw <;> simp_all))
   all_goals (try (cases dO <;> cases ctx <;> simp_all))
@@ -244,22 +296,22 @@ theorem raw_classified (s : St) (hi : inv s = true) (hw : s.state = .waiting ∨
   all_goals (try (cases rO <;> cases ctx <;> simp_all))
 
 /-- the shape of the quiescent states -/
-theorem quiescent_shape (s : St) (hi : inv s = true) (hq : Quiescent s = true) :
+theorem quiescent_shape (marks : Bool) (s : St) (hi : inv marks s = true) (hq : Quiescent s = true) :
     (s.pc = .dWait ∧ s.deployOcc = false ∧ s.ctxDone = false) ∨ (s.pc = .eWait ∧ s.enabledOcc = false ∧ s.ctxDone = false) ∨
     (s.pc = .sWait ∧ s.runOcc = false ∧ s.ctxDone = false) ∨ s.pc = .done := by
-  rcases s with ⟨pc, state, stage, dA, eA, rA, dO, eO, eV, rO, early, ctx, rep, compl⟩
+  rcases s with ⟨pc, state, stage, dA, eA, rA, dO, eO, eV, rO, early, ctx, tailF, path, rep, compl, fin, settled⟩
   rcases pc with _|_|_|_|_|_|_|_|_|_|_|_|_|_|_|_|_|_|_|_|_|⟨tgt,st⟩|⟨tgt⟩|⟨tgt⟩|⟨tgt⟩|⟨tgt⟩|⟨tgt⟩|⟨tgt⟩|⟨tgt⟩|_|_|_
   all_goals (try cases tgt)
   all_goals (try cases st)
-  all_goals (simp [Quiescent, progressActs, step, afterTrans] at hq)
+  all_goals (simp [Quiescent, progressActs, step, afterTrans, choose] at hq)
   all_goals (try (split at hq <;> simp at hq))
   all_goals (try simp_all)
   all_goals (simp [inv] at hi)
 
 /-- stage `deploy`, raw state `waiting_for_input`, input provided: only in the deploy race or while being closed -/
-theorem deploy_waiting_provided (s : St) (hi : inv s = true) (hst : s.stage = .deploy) (hw : s.state = .waiting)
+theorem deploy_waiting_provided (marks : Bool) (s : St) (hi : inv marks s = true) (hst : s.stage = .deploy) (hw : s.state = .waiting)
     (ha : s.deployAvail = true) : inDeployRace s = true ∨ s.pc = .failedLock .closed := by
-  rcases s with ⟨pc, state, stage, dA, eA, rA, dO, eO, eV, rO, early, ctx, rep, compl⟩
+  rcases s with ⟨pc, state, stage, dA, eA, rA, dO, eO, eV, rO, early, ctx, tailF, path, rep, compl, fin, settled⟩
   rcases pc with _|_|_|_|_|_|_|_|_|_|_|_|_|_|_|_|_|_|_|_|_|⟨tgt,st⟩|⟨tgt⟩|⟨tgt⟩|⟨tgt⟩|⟨tgt⟩|⟨tgt⟩|⟨tgt⟩|⟨tgt⟩|_|_|_
   all_goals (try cases tgt)
   all_goals (try cases st)
@@ -269,79 +321,79 @@ theorem deploy_waiting_provided (s : St) (hi : inv s = true) (hst : s.stage = .d
 
 set_option maxRecDepth 4000
 
-/-- counted as `waiting`, context not cancelled: parked on an empty channel, or about to park silently -/
-theorem counts_waiting_settled (s : St) (hi : inv s = true) (hc : countsAs s = .waiting) (hctx : s.ctxDone = false) :
+/-- counted as `waiting`: parked on an empty channel, or about to park silently -/
+theorem counts_waiting_settled (marks : Bool) (s : St) (hi : inv marks s = true) (hc : countsAs s = .waiting) :
     Settled s = true := by
-  rcases s with ⟨pc, state, stage, dA, eA, rA, dO, eO, eV, rO, early, ctx, rep, compl⟩
+  rcases s with ⟨pc, state, stage, dA, eA, rA, dO, eO, eV, rO, early, ctx, tailF, path, rep, compl, fin, settled⟩
   rcases pc with _|_|_|_|_|_|_|_|_|_|_|_|_|_|_|_|_|_|_|_|_|⟨tgt,st⟩|⟨tgt⟩|⟨tgt⟩|⟨tgt⟩|⟨tgt⟩|⟨tgt⟩|⟨tgt⟩|⟨tgt⟩|_|_|_
   all_goals (try cases tgt)
   all_goals (try cases st)
   all_goals (simp [inv] at hi)
-  all_goals (try (simp_all [Quiescent, Settled, progressActs, step, afterTrans, countsAs, reportedState, currentStageInputAvailable, inFailureTail, Refined, owesCheck, checkingReportPending]; done))
-  all_goals (try (cases dA <;> simp_all [Quiescent, Settled, progressActs, step, afterTrans, countsAs, reportedState, currentStageInputAvailable, inFailureTail, Refined, owesCheck, checkingReportPending]; done))
-  all_goals (try (cases eA <;> simp_all [Quiescent, Settled, progressActs, step, afterTrans, countsAs, reportedState, currentStageInputAvailable, inFailureTail, Refined, owesCheck, checkingReportPending]; done))
-  all_goals (try (cases rA <;> simp_all [Quiescent, Settled, progressActs, step, afterTrans, countsAs, reportedState, currentStageInputAvailable, inFailureTail, Refined, owesCheck, checkingReportPending]; done))
-  all_goals (try (cases early <;> cases rA <;> simp_all [Quiescent, Settled, progressActs, step, afterTrans, countsAs, reportedState, currentStageInputAvailable, inFailureTail, Refined, owesCheck, checkingReportPending]; done))
-  all_goals (try (cases dO <;> cases ctx <;> simp_all [Quiescent, Settled, progressActs, step, afterTrans, countsAs, reportedState, currentStageInputAvailable, inFailureTail, Refined, owesCheck, checkingReportPending]; done))
-  all_goals (try (cases eO <;> cases ctx <;> simp_all [Quiescent, Settled, progressActs, step, afterTrans, countsAs, reportedState, currentStageInputAvailable, inFailureTail, Refined, owesCheck, checkingReportPending]; done))
-  all_goals (try (cases rO <;> cases ctx <;> cases early <;> simp_all [Quiescent, Settled, progressActs, step, afterTrans, countsAs, reportedState, currentStageInputAvailable, inFailureTail, Refined, owesCheck, checkingReportPending]; done))
-  all_goals (try (cases state <;> cases dA <;> cases dO <;> cases ctx <;> simp_all [Quiescent, Settled, progressActs, step, afterTrans, countsAs, reportedState, currentStageInputAvailable, inFailureTail, Refined, owesCheck, checkingReportPending]; done))
-  all_goals (try (cases state <;> cases stage <;> cases dA <;> cases eA <;> cases rA <;> simp_all [Quiescent, Settled, progressActs, step, afterTrans, countsAs, reportedState, currentStageInputAvailable, inFailureTail, Refined, owesCheck, checkingReportPending]; done))
+  all_goals (try (simp_all [Quiescent, Settled, progressActs, step, afterTrans, countsAs, reportedState, currentStageInputAvailable, inFailureTail, Refined, owesCheck, checkingReportPending, choose]; done))
+  all_goals (try (cases dA <;> simp_all [Quiescent, Settled, progressActs, step, afterTrans, countsAs, reportedState, currentStageInputAvailable, inFailureTail, Refined, owesCheck, checkingReportPending, choose]; done))
+  all_goals (try (cases eA <;> simp_all [Quiescent, Settled, progressActs, step, afterTrans, countsAs, reportedState, currentStageInputAvailable, inFailureTail, Refined, owesCheck, checkingReportPending, choose]; done))
+  all_goals (try (cases rA <;> simp_all [Quiescent, Settled, progressActs, step, afterTrans, countsAs, reportedState, currentStageInputAvailable, inFailureTail, Refined, owesCheck, checkingReportPending, choose]; done))
+  all_goals (try (cases early <;> cases rA <;> simp_all [Quiescent, Settled, progressActs, step, afterTrans, countsAs, reportedState, currentStageInputAvailable, inFailureTail, Refined, owesCheck, checkingReportPending, choose]; done))
+  all_goals (try (cases dO <;> cases ctx <;> simp_all [Quiescent, Settled, progressActs, step, afterTrans, countsAs, reportedState, currentStageInputAvailable, inFailureTail, Refined, owesCheck, checkingReportPending, choose]; done))
+  all_goals (try (cases eO <;> cases ctx <;> simp_all [Quiescent, Settled, progressActs, step, afterTrans, countsAs, reportedState, currentStageInputAvailable, inFailureTail, Refined, owesCheck, checkingReportPending, choose]; done))
+  all_goals (try (cases rO <;> cases ctx <;> cases early <;> simp_all [Quiescent, Settled, progressActs, step, afterTrans, countsAs, reportedState, currentStageInputAvailable, inFailureTail, Refined, owesCheck, checkingReportPending, choose]; done))
+  all_goals (try (cases state <;> cases dA <;> cases dO <;> cases ctx <;> simp_all [Quiescent, Settled, progressActs, step, afterTrans, countsAs, reportedState, currentStageInputAvailable, inFailureTail, Refined, owesCheck, checkingReportPending, choose]; done))
+  all_goals (try (cases state <;> cases stage <;> cases dA <;> cases eA <;> cases rA <;> simp_all [Quiescent, Settled, progressActs, step, afterTrans, countsAs, reportedState, currentStageInputAvailable, inFailureTail, Refined, owesCheck, checkingReportPending, choose]; done))
 
 /-- counted as `finished`: nothing but the deferred closes is left, unless the failure notifications are still to come -/
-theorem counts_finished_settled (s : St) (hi : inv s = true) (hc : countsAs s = .finished) (hft : inFailureTail s = false) :
+theorem counts_finished_settled (marks : Bool) (s : St) (hi : inv marks s = true) (hc : countsAs s = .finished) (hft : inFailureTail s = false) :
     Settled s = true := by
-  rcases s with ⟨pc, state, stage, dA, eA, rA, dO, eO, eV, rO, early, ctx, rep, compl⟩
+  rcases s with ⟨pc, state, stage, dA, eA, rA, dO, eO, eV, rO, early, ctx, tailF, path, rep, compl, fin, settled⟩
   rcases pc with _|_|_|_|_|_|_|_|_|_|_|_|_|_|_|_|_|_|_|_|_|⟨tgt,st⟩|⟨tgt⟩|⟨tgt⟩|⟨tgt⟩|⟨tgt⟩|⟨tgt⟩|⟨tgt⟩|⟨tgt⟩|_|_|_
   all_goals (try cases tgt)
   all_goals (try cases st)
   all_goals (simp [inv] at hi)
-  all_goals (try (simp_all [Quiescent, Settled, progressActs, step, afterTrans, countsAs, reportedState, currentStageInputAvailable, inFailureTail, Refined, owesCheck, checkingReportPending]; done))
-  all_goals (try (cases dA <;> simp_all [Quiescent, Settled, progressActs, step, afterTrans, countsAs, reportedState, currentStageInputAvailable, inFailureTail, Refined, owesCheck, checkingReportPending]; done))
-  all_goals (try (cases eA <;> simp_all [Quiescent, Settled, progressActs, step, afterTrans, countsAs, reportedState, currentStageInputAvailable, inFailureTail, Refined, owesCheck, checkingReportPending]; done))
-  all_goals (try (cases rA <;> simp_all [Quiescent, Settled, progressActs, step, afterTrans, countsAs, reportedState, currentStageInputAvailable, inFailureTail, Refined, owesCheck, checkingReportPending]; done))
-  all_goals (try (cases early <;> cases rA <;> simp_all [Quiescent, Settled, progressActs, step, afterTrans, countsAs, reportedState, currentStageInputAvailable, inFailureTail, Refined, owesCheck, checkingReportPending]; done))
-  all_goals (try (cases dO <;> cases ctx <;> simp_all [Quiescent, Settled, progressActs, step, afterTrans, countsAs, reportedState, currentStageInputAvailable, inFailureTail, Refined, owesCheck, checkingReportPending]; done))
-  all_goals (try (cases eO <;> cases ctx <;> simp_all [Quiescent, Settled, progressActs, step, afterTrans, countsAs, reportedState, currentStageInputAvailable, inFailureTail, Refined, owesCheck, checkingReportPending]; done))
-  all_goals (try (cases rO <;> cases ctx <;> cases early <;> simp_all [Quiescent, Settled, progressActs, step, afterTrans, countsAs, reportedState, currentStageInputAvailable, inFailureTail, Refined, owesCheck, checkingReportPending]; done))
-  all_goals (try (cases state <;> cases dA <;> cases dO <;> cases ctx <;> simp_all [Quiescent, Settled, progressActs, step, afterTrans, countsAs, reportedState, currentStageInputAvailable, inFailureTail, Refined, owesCheck, checkingReportPending]; done))
-  all_goals (try (cases state <;> cases stage <;> cases dA <;> cases eA <;> cases rA <;> simp_all [Quiescent, Settled, progressActs, step, afterTrans, countsAs, reportedState, currentStageInputAvailable, inFailureTail, Refined, owesCheck, checkingReportPending]; done))
+  all_goals (try (simp_all [Quiescent, Settled, progressActs, step, afterTrans, countsAs, reportedState, currentStageInputAvailable, inFailureTail, Refined, owesCheck, checkingReportPending, choose]; done))
+  all_goals (try (cases dA <;> simp_all [Quiescent, Settled, progressActs, step, afterTrans, countsAs, reportedState, currentStageInputAvailable, inFailureTail, Refined, owesCheck, checkingReportPending, choose]; done))
+  all_goals (try (cases eA <;> simp_all [Quiescent, Settled, progressActs, step, afterTrans, countsAs, reportedState, currentStageInputAvailable, inFailureTail, Refined, owesCheck, checkingReportPending, choose]; done))
+  all_goals (try (cases rA <;> simp_all [Quiescent, Settled, progressActs, step, afterTrans, countsAs, reportedState, currentStageInputAvailable, inFailureTail, Refined, owesCheck, checkingReportPending, choose]; done))
+  all_goals (try (cases early <;> cases rA <;> simp_all [Quiescent, Settled, progressActs, step, afterTrans, countsAs, reportedState, currentStageInputAvailable, inFailureTail, Refined, owesCheck, checkingReportPending, choose]; done))
+  all_goals (try (cases dO <;> cases ctx <;> simp_all [Quiescent, Settled, progressActs, step, afterTrans, countsAs, reportedState, currentStageInputAvailable, inFailureTail, Refined, owesCheck, checkingReportPending, choose]; done))
+  all_goals (try (cases eO <;> cases ctx <;> simp_all [Quiescent, Settled, progressActs, step, afterTrans, countsAs, reportedState, currentStageInputAvailable, inFailureTail, Refined, owesCheck, checkingReportPending, choose]; done))
+  all_goals (try (cases rO <;> cases ctx <;> cases early <;> simp_all [Quiescent, Settled, progressActs, step, afterTrans, countsAs, reportedState, currentStageInputAvailable, inFailureTail, Refined, owesCheck, checkingReportPending, choose]; done))
+  all_goals (try (cases state <;> cases dA <;> cases dO <;> cases ctx <;> simp_all [Quiescent, Settled, progressActs, step, afterTrans, countsAs, reportedState, currentStageInputAvailable, inFailureTail, Refined, owesCheck, checkingReportPending, choose]; done))
+  all_goals (try (cases state <;> cases stage <;> cases dA <;> cases eA <;> cases rA <;> simp_all [Quiescent, Settled, progressActs, step, afterTrans, countsAs, reportedState, currentStageInputAvailable, inFailureTail, Refined, owesCheck, checkingReportPending, choose]; done))
 
 /-- wherever the refinement turns a raw `waiting_for_input` / `finished` into `running`, a checking report is owed -/
-theorem refined_owes (s : St) (hi : inv s = true) (hr : Refined s = true) : owesCheck s = true := by
-  rcases s with ⟨pc, state, stage, dA, eA, rA, dO, eO, eV, rO, early, ctx, rep, compl⟩
+theorem refined_owes (marks : Bool) (s : St) (hi : inv marks s = true) (hr : Refined s = true) : owesCheck s = true := by
+  rcases s with ⟨pc, state, stage, dA, eA, rA, dO, eO, eV, rO, early, ctx, tailF, path, rep, compl, fin, settled⟩
   rcases pc with _|_|_|_|_|_|_|_|_|_|_|_|_|_|_|_|_|_|_|_|_|⟨tgt,st⟩|⟨tgt⟩|⟨tgt⟩|⟨tgt⟩|⟨tgt⟩|⟨tgt⟩|⟨tgt⟩|⟨tgt⟩|_|_|_
   all_goals (try cases tgt)
   all_goals (try cases st)
   all_goals (simp [inv] at hi)
-  all_goals (try (simp_all [Quiescent, Settled, progressActs, step, afterTrans, countsAs, reportedState, currentStageInputAvailable, inFailureTail, Refined, owesCheck, checkingReportPending]; done))
-  all_goals (try (cases dA <;> simp_all [Quiescent, Settled, progressActs, step, afterTrans, countsAs, reportedState, currentStageInputAvailable, inFailureTail, Refined, owesCheck, checkingReportPending]; done))
-  all_goals (try (cases eA <;> simp_all [Quiescent, Settled, progressActs, step, afterTrans, countsAs, reportedState, currentStageInputAvailable, inFailureTail, Refined, owesCheck, checkingReportPending]; done))
-  all_goals (try (cases rA <;> simp_all [Quiescent, Settled, progressActs, step, afterTrans, countsAs, reportedState, currentStageInputAvailable, inFailureTail, Refined, owesCheck, checkingReportPending]; done))
-  all_goals (try (cases early <;> cases rA <;> simp_all [Quiescent, Settled, progressActs, step, afterTrans, countsAs, reportedState, currentStageInputAvailable, inFailureTail, Refined, owesCheck, checkingReportPending]; done))
-  all_goals (try (cases dO <;> cases ctx <;> simp_all [Quiescent, Settled, progressActs, step, afterTrans, countsAs, reportedState, currentStageInputAvailable, inFailureTail, Refined, owesCheck, checkingReportPending]; done))
-  all_goals (try (cases eO <;> cases ctx <;> simp_all [Quiescent, Settled, progressActs, step, afterTrans, countsAs, reportedState, currentStageInputAvailable, inFailureTail, Refined, owesCheck, checkingReportPending]; done))
-  all_goals (try (cases rO <;> cases ctx <;> cases early <;> simp_all [Quiescent, Settled, progressActs, step, afterTrans, countsAs, reportedState, currentStageInputAvailable, inFailureTail, Refined, owesCheck, checkingReportPending]; done))
-  all_goals (try (cases state <;> cases dA <;> cases dO <;> cases ctx <;> simp_all [Quiescent, Settled, progressActs, step, afterTrans, countsAs, reportedState, currentStageInputAvailable, inFailureTail, Refined, owesCheck, checkingReportPending]; done))
-  all_goals (try (cases state <;> cases stage <;> cases dA <;> cases eA <;> cases rA <;> simp_all [Quiescent, Settled, progressActs, step, afterTrans, countsAs, reportedState, currentStageInputAvailable, inFailureTail, Refined, owesCheck, checkingReportPending]; done))
+  all_goals (try (simp_all [Quiescent, Settled, progressActs, step, afterTrans, countsAs, reportedState, currentStageInputAvailable, inFailureTail, Refined, owesCheck, checkingReportPending, choose]; done))
+  all_goals (try (cases dA <;> simp_all [Quiescent, Settled, progressActs, step, afterTrans, countsAs, reportedState, currentStageInputAvailable, inFailureTail, Refined, owesCheck, checkingReportPending, choose]; done))
+  all_goals (try (cases eA <;> simp_all [Quiescent, Settled, progressActs, step, afterTrans, countsAs, reportedState, currentStageInputAvailable, inFailureTail, Refined, owesCheck, checkingReportPending, choose]; done))
+  all_goals (try (cases rA <;> simp_all [Quiescent, Settled, progressActs, step, afterTrans, countsAs, reportedState, currentStageInputAvailable, inFailureTail, Refined, owesCheck, checkingReportPending, choose]; done))
+  all_goals (try (cases early <;> cases rA <;> simp_all [Quiescent, Settled, progressActs, step, afterTrans, countsAs, reportedState, currentStageInputAvailable, inFailureTail, Refined, owesCheck, checkingReportPending, choose]; done))
+  all_goals (try (cases dO <;> cases ctx <;> simp_all [Quiescent, Settled, progressActs, step, afterTrans, countsAs, reportedState, currentStageInputAvailable, inFailureTail, Refined, owesCheck, checkingReportPending, choose]; done))
+  all_goals (try (cases eO <;> cases ctx <;> simp_all [Quiescent, Settled, progressActs, step, afterTrans, countsAs, reportedState, currentStageInputAvailable, inFailureTail, Refined, owesCheck, checkingReportPending, choose]; done))
+  all_goals (try (cases rO <;> cases ctx <;> cases early <;> simp_all [Quiescent, Settled, progressActs, step, afterTrans, countsAs, reportedState, currentStageInputAvailable, inFailureTail, Refined, owesCheck, checkingReportPending, choose]; done))
+  all_goals (try (cases state <;> cases dA <;> cases dO <;> cases ctx <;> simp_all [Quiescent, Settled, progressActs, step, afterTrans, countsAs, reportedState, currentStageInputAvailable, inFailureTail, Refined, owesCheck, checkingReportPending, choose]; done))
+  all_goals (try (cases state <;> cases stage <;> cases dA <;> cases eA <;> cases rA <;> simp_all [Quiescent, Settled, progressActs, step, afterTrans, countsAs, reportedState, currentStageInputAvailable, inFailureTail, Refined, owesCheck, checkingReportPending, choose]; done))
 
 /-- a step that owes a check is never quiescent -/
-theorem owes_not_quiescent (s : St) (hi : inv s = true) (ho : owesCheck s = true) : Quiescent s = false := by
-  rcases s with ⟨pc, state, stage, dA, eA, rA, dO, eO, eV, rO, early, ctx, rep, compl⟩
+theorem owes_not_quiescent (marks : Bool) (s : St) (hi : inv marks s = true) (ho : owesCheck s = true) : Quiescent s = false := by
+  rcases s with ⟨pc, state, stage, dA, eA, rA, dO, eO, eV, rO, early, ctx, tailF, path, rep, compl, fin, settled⟩
   rcases pc with _|_|_|_|_|_|_|_|_|_|_|_|_|_|_|_|_|_|_|_|_|⟨tgt,st⟩|⟨tgt⟩|⟨tgt⟩|⟨tgt⟩|⟨tgt⟩|⟨tgt⟩|⟨tgt⟩|⟨tgt⟩|_|_|_
   all_goals (try cases tgt)
   all_goals (try cases st)
   all_goals (simp [inv] at hi)
-  all_goals (try (simp_all [Quiescent, Settled, progressActs, step, afterTrans, countsAs, reportedState, currentStageInputAvailable, inFailureTail, Refined, owesCheck, checkingReportPending]; done))
-  all_goals (try (cases dA <;> simp_all [Quiescent, Settled, progressActs, step, afterTrans, countsAs, reportedState, currentStageInputAvailable, inFailureTail, Refined, owesCheck, checkingReportPending]; done))
-  all_goals (try (cases eA <;> simp_all [Quiescent, Settled, progressActs, step, afterTrans, countsAs, reportedState, currentStageInputAvailable, inFailureTail, Refined, owesCheck, checkingReportPending]; done))
-  all_goals (try (cases rA <;> simp_all [Quiescent, Settled, progressActs, step, afterTrans, countsAs, reportedState, currentStageInputAvailable, inFailureTail, Refined, owesCheck, checkingReportPending]; done))
-  all_goals (try (cases early <;> cases rA <;> simp_all [Quiescent, Settled, progressActs, step, afterTrans, countsAs, reportedState, currentStageInputAvailable, inFailureTail, Refined, owesCheck, checkingReportPending]; done))
-  all_goals (try (cases dO <;> cases ctx <;> simp_all [Quiescent, Settled, progressActs, step, afterTrans, countsAs, reportedState, currentStageInputAvailable, inFailureTail, Refined, owesCheck, checkingReportPending]; done))
-  all_goals (try (cases eO <;> cases ctx <;> simp_all [Quiescent, Settled, progressActs, step, afterTrans, countsAs, reportedState, currentStageInputAvailable, inFailureTail, Refined, owesCheck, checkingReportPending]; done))
-  all_goals (try (cases rO <;> cases ctx <;> cases early <;> simp_all [Quiescent, Settled, progressActs, step, afterTrans, countsAs, reportedState, currentStageInputAvailable, inFailureTail, Refined, owesCheck, checkingReportPending]; done))
-  all_goals (try (cases state <;> cases dA <;> cases dO <;> cases ctx <;> simp_all [Quiescent, Settled, progressActs, step, afterTrans, countsAs, reportedState, currentStageInputAvailable, inFailureTail, Refined, owesCheck, checkingReportPending]; done))
-  all_goals (try (cases state <;> cases stage <;> cases dA <;> cases eA <;> cases rA <;> simp_all [Quiescent, Settled, progressActs, step, afterTrans, countsAs, reportedState, currentStageInputAvailable, inFailureTail, Refined, owesCheck, checkingReportPending]; done))
+  all_goals (try (simp_all [Quiescent, Settled, progressActs, step, afterTrans, countsAs, reportedState, currentStageInputAvailable, inFailureTail, Refined, owesCheck, checkingReportPending, choose]; done))
+  all_goals (try (cases dA <;> simp_all [Quiescent, Settled, progressActs, step, afterTrans, countsAs, reportedState, currentStageInputAvailable, inFailureTail, Refined, owesCheck, checkingReportPending, choose]; done))
+  all_goals (try (cases eA <;> simp_all [Quiescent, Settled, progressActs, step, afterTrans, countsAs, reportedState, currentStageInputAvailable, inFailureTail, Refined, owesCheck, checkingReportPending, choose]; done))
+  all_goals (try (cases rA <;> simp_all [Quiescent, Settled, progressActs, step, afterTrans, countsAs, reportedState, currentStageInputAvailable, inFailureTail, Refined, owesCheck, checkingReportPending, choose]; done))
+  all_goals (try (cases early <;> cases rA <;> simp_all [Quiescent, Settled, progressActs, step, afterTrans, countsAs, reportedState, currentStageInputAvailable, inFailureTail, Refined, owesCheck, checkingReportPending, choose]; done))
+  all_goals (try (cases dO <;> cases ctx <;> simp_all [Quiescent, Settled, progressActs, step, afterTrans, countsAs, reportedState, currentStageInputAvailable, inFailureTail, Refined, owesCheck, checkingReportPending, choose]; done))
+  all_goals (try (cases eO <;> cases ctx <;> simp_all [Quiescent, Settled, progressActs, step, afterTrans, countsAs, reportedState, currentStageInputAvailable, inFailureTail, Refined, owesCheck, checkingReportPending, choose]; done))
+  all_goals (try (cases rO <;> cases ctx <;> cases early <;> simp_all [Quiescent, Settled, progressActs, step, afterTrans, countsAs, reportedState, currentStageInputAvailable, inFailureTail, Refined, owesCheck, checkingReportPending, choose]; done))
+  all_goals (try (cases state <;> cases dA <;> cases dO <;> cases ctx <;> simp_all [Quiescent, Settled, progressActs, step, afterTrans, countsAs, reportedState, currentStageInputAvailable, inFailureTail, Refined, owesCheck, checkingReportPending, choose]; done))
+  all_goals (try (cases state <;> cases stage <;> cases dA <;> cases eA <;> cases rA <;> simp_all [Quiescent, Settled, progressActs, step, afterTrans, countsAs, reportedState, currentStageInputAvailable, inFailureTail, Refined, owesCheck, checkingReportPending, choose]; done))
 
 /-- one action from a state that owes a check: either it is the processing of a checking report, or the check is still
     owed afterwards -/
@@ -349,151 +401,199 @@ macro "owes_tac" hs:ident pc:ident ev:ident : tactic => `(tactic| (
   rcases $pc:ident with _|_|_|_|_|_|_|_|_|_|_|_|_|_|_|_|_|_|_|_|_|⟨tgt,st⟩|⟨tgt⟩|⟨tgt⟩|⟨tgt⟩|⟨tgt⟩|⟨tgt⟩|⟨tgt⟩|⟨tgt⟩|_|_|_
   all_goals (try cases tgt)
   all_goals (try cases st)
-  all_goals (simp [step, afterTrans] at $hs:ident)
+  all_goals (simp [step, afterTrans, choose] at $hs:ident)
   all_goals (try (repeat' split at $hs:ident))
   all_goals (try (obtain ⟨_, $hs:ident⟩ := $hs:ident))
   all_goals (try subst $hs:ident)
   all_goals (try (simp_all [inv, owesCheck, checkingReportPending]; done))
   all_goals (try (cases $ev:ident <;> simp_all [inv, owesCheck, checkingReportPending]; done))))
 
-theorem owes_provideDeploy (s s' : St) (hi : inv s = true) (ho : owesCheck s = true)
-    (hs : step s (.provideDeploy) = some s') : (Act.provideDeploy = Act.deliver ∧ checkingReportPending s = true) ∨ owesCheck s' = true := by
-  rcases s with ⟨pc, state, stage, dA, eA, rA, dO, eO, eV, rO, early, ctx, rep, compl⟩
+theorem owes_provideDeploy (marks : Bool) (s s' : St) (hi : inv marks s = true) (ho : owesCheck s = true)
+    (hs : step marks s (.provideDeploy) = some s') : (Act.provideDeploy = Act.deliver ∧ checkingReportPending s = true) ∨ owesCheck s' = true := by
+  rcases s with ⟨pc, state, stage, dA, eA, rA, dO, eO, eV, rO, early, ctx, tailF, path, rep, compl, fin, settled⟩
   owes_tac hs pc early
 
-theorem owes_provideEnabling (s s' : St) (b : Bool) (hi : inv s = true) (ho : owesCheck s = true)
-    (hs : step s (.provideEnabling b) = some s') : (Act.provideEnabling b = Act.deliver ∧ checkingReportPending s = true) ∨ owesCheck s' = true := by
-  rcases s with ⟨pc, state, stage, dA, eA, rA, dO, eO, eV, rO, early, ctx, rep, compl⟩
+theorem owes_provideEnabling (marks : Bool) (s s' : St) (b : Bool) (hi : inv marks s = true) (ho : owesCheck s = true)
+    (hs : step marks s (.provideEnabling b) = some s') : (Act.provideEnabling b = Act.deliver ∧ checkingReportPending s = true) ∨ owesCheck s' = true := by
+  rcases s with ⟨pc, state, stage, dA, eA, rA, dO, eO, eV, rO, early, ctx, tailF, path, rep, compl, fin, settled⟩
   owes_tac hs pc early
 
-theorem owes_provideStarting (s s' : St) (hi : inv s = true) (ho : owesCheck s = true)
-    (hs : step s (.provideStarting) = some s') : (Act.provideStarting = Act.deliver ∧ checkingReportPending s = true) ∨ owesCheck s' = true := by
-  rcases s with ⟨pc, state, stage, dA, eA, rA, dO, eO, eV, rO, early, ctx, rep, compl⟩
+theorem owes_provideStarting (marks : Bool) (s s' : St) (hi : inv marks s = true) (ho : owesCheck s = true)
+    (hs : step marks s (.provideStarting) = some s') : (Act.provideStarting = Act.deliver ∧ checkingReportPending s = true) ∨ owesCheck s' = true := by
+  rcases s with ⟨pc, state, stage, dA, eA, rA, dO, eO, eV, rO, early, ctx, tailF, path, rep, compl, fin, settled⟩
   owes_tac hs pc early
 
-theorem owes_cancel (s s' : St) (hi : inv s = true) (ho : owesCheck s = true)
-    (hs : step s (.cancel) = some s') : (Act.cancel = Act.deliver ∧ checkingReportPending s = true) ∨ owesCheck s' = true := by
-  rcases s with ⟨pc, state, stage, dA, eA, rA, dO, eO, eV, rO, early, ctx, rep, compl⟩
+theorem owes_cancel (marks : Bool) (s s' : St) (hi : inv marks s = true) (ho : owesCheck s = true)
+    (hs : step marks s (.cancel) = some s') : (Act.cancel = Act.deliver ∧ checkingReportPending s = true) ∨ owesCheck s' = true := by
+  rcases s with ⟨pc, state, stage, dA, eA, rA, dO, eO, eV, rO, early, ctx, tailF, path, rep, compl, fin, settled⟩
   owes_tac hs pc early
 
-theorem owes_internal (s s' : St) (hi : inv s = true) (ho : owesCheck s = true)
-    (hs : step s (.internal) = some s') : (Act.internal = Act.deliver ∧ checkingReportPending s = true) ∨ owesCheck s' = true := by
-  rcases s with ⟨pc, state, stage, dA, eA, rA, dO, eO, eV, rO, early, ctx, rep, compl⟩
+theorem owes_internal (marks : Bool) (s s' : St) (hi : inv marks s = true) (ho : owesCheck s = true)
+    (hs : step marks s (.internal) = some s') : (Act.internal = Act.deliver ∧ checkingReportPending s = true) ∨ owesCheck s' = true := by
+  rcases s with ⟨pc, state, stage, dA, eA, rA, dO, eO, eV, rO, early, ctx, tailF, path, rep, compl, fin, settled⟩
   owes_tac hs pc early
 
-theorem owes_deliver (s s' : St) (hi : inv s = true) (ho : owesCheck s = true)
-    (hs : step s (.deliver) = some s') : (Act.deliver = Act.deliver ∧ checkingReportPending s = true) ∨ owesCheck s' = true := by
-  rcases s with ⟨pc, state, stage, dA, eA, rA, dO, eO, eV, rO, early, ctx, rep, compl⟩
+theorem owes_deliver (marks : Bool) (s s' : St) (hi : inv marks s = true) (ho : owesCheck s = true)
+    (hs : step marks s (.deliver) = some s') : (Act.deliver = Act.deliver ∧ checkingReportPending s = true) ∨ owesCheck s' = true := by
+  rcases s with ⟨pc, state, stage, dA, eA, rA, dO, eO, eV, rO, early, ctx, tailF, path, rep, compl, fin, settled⟩
   owes_tac hs pc early
 
-theorem owes_deliverFailure (s s' : St) (hi : inv s = true) (ho : owesCheck s = true)
-    (hs : step s (.deliverFailure) = some s') : (Act.deliverFailure = Act.deliver ∧ checkingReportPending s = true) ∨ owesCheck s' = true := by
-  rcases s with ⟨pc, state, stage, dA, eA, rA, dO, eO, eV, rO, early, ctx, rep, compl⟩
+theorem owes_deliverFailure (marks : Bool) (s s' : St) (hi : inv marks s = true) (ho : owesCheck s = true)
+    (hs : step marks s (.deliverFailure) = some s') : (Act.deliverFailure = Act.deliver ∧ checkingReportPending s = true) ∨ owesCheck s' = true := by
+  rcases s with ⟨pc, state, stage, dA, eA, rA, dO, eO, eV, rO, early, ctx, tailF, path, rep, compl, fin, settled⟩
   owes_tac hs pc early
 
-theorem owes_recv (s s' : St) (hi : inv s = true) (ho : owesCheck s = true)
-    (hs : step s (.recv) = some s') : (Act.recv = Act.deliver ∧ checkingReportPending s = true) ∨ owesCheck s' = true := by
-  rcases s with ⟨pc, state, stage, dA, eA, rA, dO, eO, eV, rO, early, ctx, rep, compl⟩
+theorem owes_recv (marks : Bool) (s s' : St) (hi : inv marks s = true) (ho : owesCheck s = true)
+    (hs : step marks s (.recv) = some s') : (Act.recv = Act.deliver ∧ checkingReportPending s = true) ∨ owesCheck s' = true := by
+  rcases s with ⟨pc, state, stage, dA, eA, rA, dO, eO, eV, rO, early, ctx, tailF, path, rep, compl, fin, settled⟩
   owes_tac hs pc early
 
-theorem owes_ctx (s s' : St) (hi : inv s = true) (ho : owesCheck s = true)
-    (hs : step s (.ctx) = some s') : (Act.ctx = Act.deliver ∧ checkingReportPending s = true) ∨ owesCheck s' = true := by
-  rcases s with ⟨pc, state, stage, dA, eA, rA, dO, eO, eV, rO, early, ctx, rep, compl⟩
+theorem owes_ctx (marks : Bool) (s s' : St) (hi : inv marks s = true) (ho : owesCheck s = true)
+    (hs : step marks s (.ctx) = some s') : (Act.ctx = Act.deliver ∧ checkingReportPending s = true) ∨ owesCheck s' = true := by
+  rcases s with ⟨pc, state, stage, dA, eA, rA, dO, eO, eV, rO, early, ctx, tailF, path, rep, compl, fin, settled⟩
   owes_tac hs pc early
 
-theorem owes_deployOk (s s' : St) (hi : inv s = true) (ho : owesCheck s = true)
-    (hs : step s (.deployOk) = some s') : (Act.deployOk = Act.deliver ∧ checkingReportPending s = true) ∨ owesCheck s' = true := by
-  rcases s with ⟨pc, state, stage, dA, eA, rA, dO, eO, eV, rO, early, ctx, rep, compl⟩
+theorem owes_deployOk (marks : Bool) (s s' : St) (hi : inv marks s = true) (ho : owesCheck s = true)
+    (hs : step marks s (.deployOk) = some s') : (Act.deployOk = Act.deliver ∧ checkingReportPending s = true) ∨ owesCheck s' = true := by
+  rcases s with ⟨pc, state, stage, dA, eA, rA, dO, eO, eV, rO, early, ctx, tailF, path, rep, compl, fin, settled⟩
   owes_tac hs pc early
 
-theorem owes_deployFail (s s' : St) (hi : inv s = true) (ho : owesCheck s = true)
-    (hs : step s (.deployFail) = some s') : (Act.deployFail = Act.deliver ∧ checkingReportPending s = true) ∨ owesCheck s' = true := by
-  rcases s with ⟨pc, state, stage, dA, eA, rA, dO, eO, eV, rO, early, ctx, rep, compl⟩
+theorem owes_deployFail (marks : Bool) (s s' : St) (hi : inv marks s = true) (ho : owesCheck s = true)
+    (hs : step marks s (.deployFail) = some s') : (Act.deployFail = Act.deliver ∧ checkingReportPending s = true) ∨ owesCheck s' = true := by
+  rcases s with ⟨pc, state, stage, dA, eA, rA, dO, eO, eV, rO, early, ctx, tailF, path, rep, compl, fin, settled⟩
   owes_tac hs pc early
 
-theorem owes_startOk (s s' : St) (hi : inv s = true) (ho : owesCheck s = true)
-    (hs : step s (.startOk) = some s') : (Act.startOk = Act.deliver ∧ checkingReportPending s = true) ∨ owesCheck s' = true := by
-  rcases s with ⟨pc, state, stage, dA, eA, rA, dO, eO, eV, rO, early, ctx, rep, compl⟩
+theorem owes_startOk (marks : Bool) (s s' : St) (hi : inv marks s = true) (ho : owesCheck s = true)
+    (hs : step marks s (.startOk) = some s') : (Act.startOk = Act.deliver ∧ checkingReportPending s = true) ∨ owesCheck s' = true := by
+  rcases s with ⟨pc, state, stage, dA, eA, rA, dO, eO, eV, rO, early, ctx, tailF, path, rep, compl, fin, settled⟩
   owes_tac hs pc early
 
-theorem owes_startFail (s s' : St) (hi : inv s = true) (ho : owesCheck s = true)
-    (hs : step s (.startFail) = some s') : (Act.startFail = Act.deliver ∧ checkingReportPending s = true) ∨ owesCheck s' = true := by
-  rcases s with ⟨pc, state, stage, dA, eA, rA, dO, eO, eV, rO, early, ctx, rep, compl⟩
+theorem owes_startFail (marks : Bool) (s s' : St) (hi : inv marks s = true) (ho : owesCheck s = true)
+    (hs : step marks s (.startFail) = some s') : (Act.startFail = Act.deliver ∧ checkingReportPending s = true) ∨ owesCheck s' = true := by
+  rcases s with ⟨pc, state, stage, dA, eA, rA, dO, eO, eV, rO, early, ctx, tailF, path, rep, compl, fin, settled⟩
   owes_tac hs pc early
 
-theorem owes_resultOk (s s' : St) (hi : inv s = true) (ho : owesCheck s = true)
-    (hs : step s (.resultOk) = some s') : (Act.resultOk = Act.deliver ∧ checkingReportPending s = true) ∨ owesCheck s' = true := by
-  rcases s with ⟨pc, state, stage, dA, eA, rA, dO, eO, eV, rO, early, ctx, rep, compl⟩
+theorem owes_resultOk (marks : Bool) (s s' : St) (hi : inv marks s = true) (ho : owesCheck s = true)
+    (hs : step marks s (.resultOk) = some s') : (Act.resultOk = Act.deliver ∧ checkingReportPending s = true) ∨ owesCheck s' = true := by
+  rcases s with ⟨pc, state, stage, dA, eA, rA, dO, eO, eV, rO, early, ctx, tailF, path, rep, compl, fin, settled⟩
   owes_tac hs pc early
 
-theorem owes_resultErr (s s' : St) (hi : inv s = true) (ho : owesCheck s = true)
-    (hs : step s (.resultErr) = some s') : (Act.resultErr = Act.deliver ∧ checkingReportPending s = true) ∨ owesCheck s' = true := by
-  rcases s with ⟨pc, state, stage, dA, eA, rA, dO, eO, eV, rO, early, ctx, rep, compl⟩
+theorem owes_resultErr (marks : Bool) (s s' : St) (hi : inv marks s = true) (ho : owesCheck s = true)
+    (hs : step marks s (.resultErr) = some s') : (Act.resultErr = Act.deliver ∧ checkingReportPending s = true) ∨ owesCheck s' = true := by
+  rcases s with ⟨pc, state, stage, dA, eA, rA, dO, eO, eV, rO, early, ctx, tailF, path, rep, compl, fin, settled⟩
   owes_tac hs pc early
 
-theorem owes_step (s s' : St) (a : Act) (hi : inv s = true) (ho : owesCheck s = true) (hs : step s a = some s') :
+theorem owes_step (marks : Bool) (s s' : St) (a : Act) (hi : inv marks s = true) (ho : owesCheck s = true) (hs : step marks s a = some s') :
     (a = Act.deliver ∧ checkingReportPending s = true) ∨ owesCheck s' = true := by
   cases a with
-  | provideDeploy => exact owes_provideDeploy s s' hi ho hs
-  | provideEnabling b => exact owes_provideEnabling s s' b hi ho hs
-  | provideStarting => exact owes_provideStarting s s' hi ho hs
-  | cancel => exact owes_cancel s s' hi ho hs
-  | internal => exact owes_internal s s' hi ho hs
-  | deliver => exact owes_deliver s s' hi ho hs
-  | deliverFailure => exact owes_deliverFailure s s' hi ho hs
-  | recv => exact owes_recv s s' hi ho hs
-  | ctx => exact owes_ctx s s' hi ho hs
-  | deployOk => exact owes_deployOk s s' hi ho hs
-  | deployFail => exact owes_deployFail s s' hi ho hs
-  | startOk => exact owes_startOk s s' hi ho hs
-  | startFail => exact owes_startFail s s' hi ho hs
-  | resultOk => exact owes_resultOk s s' hi ho hs
-  | resultErr => exact owes_resultErr s s' hi ho hs
+  | provideDeploy => exact owes_provideDeploy marks s s' hi ho hs
+  | provideEnabling b => exact owes_provideEnabling marks s s' b hi ho hs
+  | provideStarting => exact owes_provideStarting marks s s' hi ho hs
+  | cancel => exact owes_cancel marks s s' hi ho hs
+  | internal => exact owes_internal marks s s' hi ho hs
+  | deliver => exact owes_deliver marks s s' hi ho hs
+  | deliverFailure => exact owes_deliverFailure marks s s' hi ho hs
+  | recv => exact owes_recv marks s s' hi ho hs
+  | ctx => exact owes_ctx marks s s' hi ho hs
+  | deployOk => exact owes_deployOk marks s s' hi ho hs
+  | deployFail => exact owes_deployFail marks s s' hi ho hs
+  | startOk => exact owes_startOk marks s s' hi ho hs
+  | startFail => exact owes_startFail marks s s' hi ho hs
+  | resultOk => exact owes_resultOk marks s s' hi ho hs
+  | resultErr => exact owes_resultErr marks s s' hi ho hs
 
 /-- from a settled state the only moves left are silent local ones, and they lead to settled states -/
-theorem settled_step (s s' : St) (a : Act) (hs : Settled s = true) (ha : a ∈ progressActs) (hstep : step s a = some s') :
+theorem settled_step (marks : Bool) (s s' : St) (a : Act) (hs : Settled s = true) (ha : a ∈ progressActs) (hstep : step marks s a = some s') :
     a = .internal ∧ Settled s' = true := by
-  rcases s with ⟨pc, state, stage, dA, eA, rA, dO, eO, eV, rO, early, ctx, rep, compl⟩
+  rcases s with ⟨pc, state, stage, dA, eA, rA, dO, eO, eV, rO, early, ctx, tailF, path, rep, compl, fin, settled⟩
   simp only [progressActs, List.mem_cons, List.mem_nil_iff, or_false] at ha
   rcases pc with _|_|_|_|_|_|_|_|_|_|_|_|_|_|_|_|_|_|_|_|_|⟨tgt,st⟩|⟨tgt⟩|⟨tgt⟩|⟨tgt⟩|⟨tgt⟩|⟨tgt⟩|⟨tgt⟩|⟨tgt⟩|_|_|_
   all_goals (try cases tgt)
   all_goals (rcases ha with rfl | rfl | rfl | rfl | rfl | rfl | rfl | rfl | rfl | rfl | rfl)
-  all_goals (simp [step, afterTrans] at hstep)
+  all_goals (simp [step, afterTrans, choose] at hstep)
   all_goals (try (repeat' split at hstep))
   all_goals (try (obtain ⟨_, hstep⟩ := hstep))
   all_goals (try subst hstep)
-  all_goals (try (simp_all [Settled, Quiescent, progressActs, step, afterTrans]; done))
+  all_goals (try (simp_all [Settled, Quiescent, progressActs, step, afterTrans, choose]; done))
 
 /-- counted as `waiting` in stage `deploy`, context not cancelled: parked on the empty channel, input not provided -/
-theorem deploy_counts_waiting (s : St) (hi : inv s = true) (hst : s.stage = .deploy) (hc : countsAs s = .waiting)
-    (hctx : s.ctxDone = false) : Quiescent s = true ∧ s.deployAvail = false := by
-  rcases s with ⟨pc, state, stage, dA, eA, rA, dO, eO, eV, rO, early, ctx, rep, compl⟩
+theorem deploy_counts_waiting (marks : Bool) (s : St) (hi : inv marks s = true) (hst : s.stage = .deploy) (hc : countsAs s = .waiting) :
+    Quiescent s = true ∧ s.deployAvail = false ∧ s.ctxDone = false := by
+  rcases s with ⟨pc, state, stage, dA, eA, rA, dO, eO, eV, rO, early, ctx, tailF, path, rep, compl, fin, settled⟩
   rcases pc with _|_|_|_|_|_|_|_|_|_|_|_|_|_|_|_|_|_|_|_|_|⟨tgt,st⟩|⟨tgt⟩|⟨tgt⟩|⟨tgt⟩|⟨tgt⟩|⟨tgt⟩|⟨tgt⟩|⟨tgt⟩|_|_|_
   all_goals (try cases tgt)
   all_goals (try cases st)
   all_goals (simp [inv] at hi)
-  all_goals (try (simp_all [Quiescent, Settled, progressActs, step, afterTrans, countsAs, reportedState, currentStageInputAvailable, inFailureTail, Refined, owesCheck, checkingReportPending]; done))
-  all_goals (try (cases dA <;> simp_all [Quiescent, Settled, progressActs, step, afterTrans, countsAs, reportedState, currentStageInputAvailable, inFailureTail, Refined, owesCheck, checkingReportPending]; done))
-  all_goals (try (cases eA <;> simp_all [Quiescent, Settled, progressActs, step, afterTrans, countsAs, reportedState, currentStageInputAvailable, inFailureTail, Refined, owesCheck, checkingReportPending]; done))
-  all_goals (try (cases rA <;> simp_all [Quiescent, Settled, progressActs, step, afterTrans, countsAs, reportedState, currentStageInputAvailable, inFailureTail, Refined, owesCheck, checkingReportPending]; done))
-  all_goals (try (cases early <;> cases rA <;> simp_all [Quiescent, Settled, progressActs, step, afterTrans, countsAs, reportedState, currentStageInputAvailable, inFailureTail, Refined, owesCheck, checkingReportPending]; done))
-  all_goals (try (cases state <;> cases dA <;> cases dO <;> cases ctx <;> simp_all [Quiescent, Settled, progressActs, step, afterTrans, countsAs, reportedState, currentStageInputAvailable, inFailureTail, Refined, owesCheck, checkingReportPending]; done))
-  all_goals (try (cases state <;> cases stage <;> cases dA <;> cases eA <;> cases rA <;> simp_all [Quiescent, Settled, progressActs, step, afterTrans, countsAs, reportedState, currentStageInputAvailable, inFailureTail, Refined, owesCheck, checkingReportPending]; done))
+  all_goals (try (simp_all [Quiescent, Settled, progressActs, step, afterTrans, countsAs, reportedState, currentStageInputAvailable, inFailureTail, Refined, owesCheck, checkingReportPending, choose]; done))
+  all_goals (try (cases dA <;> simp_all [Quiescent, Settled, progressActs, step, afterTrans, countsAs, reportedState, currentStageInputAvailable, inFailureTail, Refined, owesCheck, checkingReportPending, choose]; done))
+  all_goals (try (cases eA <;> simp_all [Quiescent, Settled, progressActs, step, afterTrans, countsAs, reportedState, currentStageInputAvailable, inFailureTail, Refined, owesCheck, checkingReportPending, choose]; done))
+  all_goals (try (cases rA <;> simp_all [Quiescent, Settled, progressActs, step, afterTrans, countsAs, reportedState, currentStageInputAvailable, inFailureTail, Refined, owesCheck, checkingReportPending, choose]; done))
+  all_goals (try (cases early <;> cases rA <;> simp_all [Quiescent, Settled, progressActs, step, afterTrans, countsAs, reportedState, currentStageInputAvailable, inFailureTail, Refined, owesCheck, checkingReportPending, choose]; done))
+  all_goals (try (cases state <;> cases dA <;> cases dO <;> cases ctx <;> simp_all [Quiescent, Settled, progressActs, step, afterTrans, countsAs, reportedState, currentStageInputAvailable, inFailureTail, Refined, owesCheck, checkingReportPending, choose]; done))
+  all_goals (try (cases state <;> cases stage <;> cases dA <;> cases eA <;> cases rA <;> simp_all [Quiescent, Settled, progressActs, step, afterTrans, countsAs, reportedState, currentStageInputAvailable, inFailureTail, Refined, owesCheck, checkingReportPending, choose]; done))
 
-/-- counted as `waiting` with the context cancelled: `run()` is on its way to report that it was closed -/
-theorem counts_waiting_ctx_owes (s : St) (hi : inv s = true) (hc : countsAs s = .waiting) (hctx : s.ctxDone = true) :
-    owesCheck s = true := by
-  rcases s with ⟨pc, state, stage, dA, eA, rA, dO, eO, eV, rO, early, ctx, rep, compl⟩
+/-- raw `waiting_for_input` with the context cancelled: counted as running, and `run()` is on its way to report that
+    it was closed -/
+theorem raw_waiting_ctx_owes (marks : Bool) (s : St) (hi : inv marks s = true) (hw : s.state = .waiting) (hctx : s.ctxDone = true) :
+    countsAs s = .running ∧ owesCheck s = true := by
+  rcases s with ⟨pc, state, stage, dA, eA, rA, dO, eO, eV, rO, early, ctx, tailF, path, rep, compl, fin, settled⟩
   rcases pc with _|_|_|_|_|_|_|_|_|_|_|_|_|_|_|_|_|_|_|_|_|⟨tgt,st⟩|⟨tgt⟩|⟨tgt⟩|⟨tgt⟩|⟨tgt⟩|⟨tgt⟩|⟨tgt⟩|⟨tgt⟩|_|_|_
   all_goals (try cases tgt)
   all_goals (try cases st)
   all_goals (simp [inv] at hi)
-  all_goals (try (simp_all [Quiescent, Settled, progressActs, step, afterTrans, countsAs, reportedState, currentStageInputAvailable, inFailureTail, Refined, owesCheck, checkingReportPending]; done))
-  all_goals (try (cases dA <;> simp_all [Quiescent, Settled, progressActs, step, afterTrans, countsAs, reportedState, currentStageInputAvailable, inFailureTail, Refined, owesCheck, checkingReportPending]; done))
-  all_goals (try (cases eA <;> simp_all [Quiescent, Settled, progressActs, step, afterTrans, countsAs, reportedState, currentStageInputAvailable, inFailureTail, Refined, owesCheck, checkingReportPending]; done))
-  all_goals (try (cases rA <;> simp_all [Quiescent, Settled, progressActs, step, afterTrans, countsAs, reportedState, currentStageInputAvailable, inFailureTail, Refined, owesCheck, checkingReportPending]; done))
-  all_goals (try (cases early <;> cases rA <;> simp_all [Quiescent, Settled, progressActs, step, afterTrans, countsAs, reportedState, currentStageInputAvailable, inFailureTail, Refined, owesCheck, checkingReportPending]; done))
-  all_goals (try (cases state <;> cases dA <;> cases dO <;> cases ctx <;> simp_all [Quiescent, Settled, progressActs, step, afterTrans, countsAs, reportedState, currentStageInputAvailable, inFailureTail, Refined, owesCheck, checkingReportPending]; done))
-  all_goals (try (cases state <;> cases stage <;> cases dA <;> cases eA <;> cases rA <;> simp_all [Quiescent, Settled, progressActs, step, afterTrans, countsAs, reportedState, currentStageInputAvailable, inFailureTail, Refined, owesCheck, checkingReportPending]; done))
+  all_goals (try (simp_all [Quiescent, Settled, progressActs, step, afterTrans, countsAs, reportedState, currentStageInputAvailable, inFailureTail, Refined, owesCheck, checkingReportPending, choose]; done))
+  all_goals (try (cases dA <;> simp_all [Quiescent, Settled, progressActs, step, afterTrans, countsAs, reportedState, currentStageInputAvailable, inFailureTail, Refined, owesCheck, checkingReportPending, choose]; done))
+  all_goals (try (cases eA <;> simp_all [Quiescent, Settled, progressActs, step, afterTrans, countsAs, reportedState, currentStageInputAvailable, inFailureTail, Refined, owesCheck, checkingReportPending, choose]; done))
+  all_goals (try (cases rA <;> simp_all [Quiescent, Settled, progressActs, step, afterTrans, countsAs, reportedState, currentStageInputAvailable, inFailureTail, Refined, owesCheck, checkingReportPending, choose]; done))
+  all_goals (try (cases early <;> cases rA <;> simp_all [Quiescent, Settled, progressActs, step, afterTrans, countsAs, reportedState, currentStageInputAvailable, inFailureTail, Refined, owesCheck, checkingReportPending, choose]; done))
+  all_goals (try (cases state <;> cases dA <;> cases dO <;> cases ctx <;> simp_all [Quiescent, Settled, progressActs, step, afterTrans, countsAs, reportedState, currentStageInputAvailable, inFailureTail, Refined, owesCheck, checkingReportPending, choose]; done))
+  all_goals (try (cases state <;> cases stage <;> cases dA <;> cases eA <;> cases rA <;> simp_all [Quiescent, Settled, progressActs, step, afterTrans, countsAs, reportedState, currentStageInputAvailable, inFailureTail, Refined, owesCheck, checkingReportPending, choose]; done))
+
+/-! ### the failure tail -/
+
+/-- with the marking (`marks = true`): counted as `finished` ⇒ harmless -/
+theorem counts_finished_harmless' (marks : Bool) (hm : marks = true) (s : St) (hi : inv marks s = true) (hc : countsAs s = .finished) : Harmless s = true := by
+  rcases s with ⟨pc, state, stage, dA, eA, rA, dO, eO, eV, rO, early, ctx, tailF, path, rep, compl, fin, settled⟩
+  rcases pc with _|_|_|_|_|_|_|_|_|_|_|_|_|_|_|_|_|_|_|_|_|⟨tgt,st⟩|⟨tgt⟩|⟨tgt⟩|⟨tgt⟩|⟨tgt⟩|⟨tgt⟩|⟨tgt⟩|⟨tgt⟩|_|_|_
+  all_goals (try cases tgt)
+  all_goals (try cases st)
+  all_goals (simp [inv] at hi)
+  all_goals (try (simp_all [countsAs, reportedState, currentStageInputAvailable]; done))
+  all_goals (try (cases dA <;> cases eA <;> cases rA <;> cases ctx <;> simp_all [countsAs, reportedState, currentStageInputAvailable]; done))
+  all_goals (try (rcases hi with ⟨_, ⟨⟨⟨⟨⟨⟨⟨⟨⟨⟨hst | hst, _⟩, _⟩, _⟩, _⟩, _⟩, _⟩, _⟩, _⟩, _⟩, _⟩⟩ <;> cases dA <;> cases ctx <;> simp_all [countsAs, reportedState, currentStageInputAvailable]; done))
+  all_goals (subst hm)
+  all_goals (obtain ⟨_, ⟨⟨⟨_, htail⟩, hfin⟩, hset⟩⟩ := hi)
+  all_goals (subst htail hfin hset)
+  all_goals (cases path)
+  all_goals (try (simp_all [Quiescent, Settled, Harmless, progressActs, step, afterTrans, inFailureTail, choose, tailOf, failChain, finPre, finMid, finPost, finalStage, settledPost, allStages]; done))
+
+theorem counts_finished_harmless (s : St) (hi : inv true s = true) (hc : countsAs s = .finished) : Harmless s = true :=
+  counts_finished_harmless' true rfl s hi hc
+
+/-- from a harmless state the step only makes silent local moves and failure notifications about settled stages; the
+    loop-side record does not change and the state stays harmless -/
+theorem harmless_step (marks : Bool) (s s' : St) (a : Act) (hh : Harmless s = true) (ha : a ∈ progressActs)
+    (hstep : step marks s a = some s') :
+    (a = .internal ∨ a = .deliverFailure) ∧ Harmless s' = true ∧ loopView s' = loopView s := by
+  rcases s with ⟨pc, state, stage, dA, eA, rA, dO, eO, eV, rO, early, ctx, tailF, path, rep, compl, fin, settled⟩
+  simp only [progressActs, List.mem_cons, List.mem_nil_iff, or_false] at ha
+  rcases pc with _|_|_|_|_|_|_|_|_|_|_|_|_|_|_|_|_|_|_|_|_|⟨tgt,st⟩|⟨tgt⟩|⟨tgt⟩|⟨tgt⟩|⟨tgt⟩|⟨tgt⟩|⟨tgt⟩|⟨tgt⟩|_|_|_
+  all_goals (try cases tgt)
+  all_goals (rcases ha with rfl | rfl | rfl | rfl | rfl | rfl | rfl | rfl | rfl | rfl | rfl)
+  all_goals (simp [step, afterTrans, choose] at hstep)
+  all_goals (try (repeat' split at hstep))
+  all_goals (try (obtain ⟨_, hstep⟩ := hstep))
+  all_goals (try subst hstep)
+  all_goals (try (simp_all [Quiescent, Settled, Harmless, progressActs, step, afterTrans, countsAs, reportedState, currentStageInputAvailable, inFailureTail, choose, tailOf, failChain, finPre, finMid, finPost, finalStage, settledPost, allStages, loopView]; done))
+
+/-- `failChain` is the fall-through chain of `markStageFailures` as extracted from the source -/
+def stageName : Stage → String
+  | .deploy => "deploy" | .deployFailed => "deploy_failed" | .enabling => "enabling" | .disabled => "disabled"
+  | .starting => "starting" | .running => "running" | .outputs => "outputs" | .crashed => "crashed" | .closed => "closed"
+
+theorem failChain_matches_source :
+    ∀ x ∈ [Stage.enabling, .disabled, .starting, .running, .outputs],
+      Arca.Model.PluginStep.chainFrom Arca.Gen.pluginFailChain (stageName x) = some ((failChain x).map stageName) := by
+  decide
 
 end Arca.Proofs.PluginState
